@@ -1,5 +1,5 @@
 (* C04 — loops: at most max_iterations supersteps; InfiniteLoopError carries the state so far. *)
-From HG Require Import Base Engine Exec EngineProofs LoopProofs LoopCount Samples.
+From HG Require Import Base Engine Exec EngineProofs LoopProofs LoopCount LoopCount1 Samples.
 From stdpp Require Import gmap.
 
 (* A run never executes more than max_iterations supersteps (every graph, runner, executor). *)
@@ -87,6 +87,35 @@ Theorem C04_loop_family_exact : forall (m bound : Z) (r : runner) (x0 : Z) (n fu
     cnt 10 log = n /\ cnt 13 log = n.
 Proof. exact loop_family_exact. Qed.
 Print Assumptions C04_loop_family_exact.
+
+(* ... and the other family: the gate reads the loop variable directly (no signal) -  while P x: x := f x  (loop1: body node 10,
+   exit gate 13 with targets [10; END], open by default).  For every P, f, start value, runner and budget >= 2n+1 the run
+   completes with x = f^n x0, n >= 0 the first n with P (f^n x0) = false, after exactly n body runs and n+1 gate runs. *)
+Theorem C04_while_exact : forall (P : Z -> bool) (f : Z -> Z) (exec : node -> state -> dict val -> outcome) (r : runner) (x0 : Z) (n fuel : nat),
+  (forall st x, exec body1 st [(1%positive, VInt x)] = OOk [(1%positive, VInt (f x))] None) ->
+  (forall st x, exec gate1 st [(1%positive, VInt x)] = OOk [] (Some (Some (if P x then DOne 10 else DEnd)))) ->
+  (forall j, (j < n)%nat -> P (Nat.iter j f x0) = true) ->
+  P (Nat.iter n f x0) = false ->
+  (forall j, (j < n)%nat -> Nat.iter (S j) f x0 <> Nat.iter j f x0) ->
+  (2 * n + 1 <= fuel)%nat ->
+  exists st log,
+    execute exec r fuel loop1 [(1%positive, VInt x0)] = (RDone st, log) /\
+    vals st !! 1%positive = Some (VInt (Nat.iter n f x0)) /\
+    cnt 10 log = n /\ cnt 13 log = S n.
+Proof. exact while_runs_exactly. Qed.
+Print Assumptions C04_while_exact.
+
+Theorem C04_while_family_exact : forall (m bound : Z) (r : runner) (x0 : Z) (n fuel : nat),
+  (forall j, (j < n)%nat -> Z.ltb (Nat.iter j (fun x => x + m)%Z x0) bound = true) ->
+  Z.ltb (Nat.iter n (fun x => x + m)%Z x0) bound = false ->
+  m <> 0%Z ->
+  (2 * n + 1 <= fuel)%nat ->
+  exists st log,
+    execute (exec_basic (loop_family_ft m bound) loop_gt) r fuel loop1 [(1%positive, VInt x0)] = (RDone st, log) /\
+    vals st !! 1%positive = Some (VInt (Nat.iter n (fun x => x + m)%Z x0)) /\
+    cnt 10 log = n /\ cnt 13 log = S n.
+Proof. exact while_family_exact. Qed.
+Print Assumptions C04_while_family_exact.
 
 Example C04_loop_runs :
   let r := run_basic loop_ft loop_gt Sync 20 loop [(1%positive, VInt 0)] None in
